@@ -640,4 +640,357 @@ bytes exactly (every token ends where it was meant to end, nothing is merged or 
 theorem lex_roundtrip (vs : List XTok) (h : canonOk false vs = true) : xmlTokens (bytesOf vs) = some vs :=
   lexGo_canon _ false vs h (Nat.lt_succ_self _)
 
+
+/-! ## the grammar of C06 (`WfText`, `WfAttrVal`: sequences of units) implies the Boolean checks of the tokeniser -/
+
+open Verif.Proofs.Xml (flat_cons flat_append decodeText_flat normAttr_flat ref_chars_avoid ref_chars_noquote unquote_wrap)
+
+theorem legal_lit (c : Char) (h : litOk c = true) (a : Bool) : legalD ((XUnit.lit c).val a) = true := by
+  simp only [litOk, Bool.and_eq_true, Bool.or_eq_true, decide_eq_true_eq] at h
+  have hS : ∀ c : Char, isS c = true → legalD (lit c) = true := by
+    intro c hc
+    simp only [isS, Bool.or_eq_true, beq_iff_eq] at hc
+    rcases hc with ((rfl | rfl) | rfl) | rfl <;> decide
+  simp only [XUnit.val]
+  split
+  · decide
+  · rcases h.2 with h2 | h2
+    · exact hS c h2
+    · simp only [lit]
+      split
+      · next hlt =>
+        simp only [legalD, legalChar, Bool.or_eq_true, Bool.and_eq_true, decide_eq_true_eq]
+        left; left; right
+        exact ⟨h2, by omega⟩
+      · rfl
+
+theorem legal_unit (u : XUnit) (hu : u.ok = true) (a : Bool) : legalD (u.val a) = true := by
+  cases u with
+  | lit c => exact legal_lit c hu a
+  | named nm =>
+    have hp : ∀ n, predefined nm = some n → legalChar n = true := by
+      intro n hp
+      simp only [predefined] at hp
+      repeat' split at hp
+      all_goals first | (simp only [Option.some.injEq] at hp; subst hp; decide) | (simp at hp)
+    simp only [XUnit.val]
+    cases hq : predefined nm with
+    | none => rfl
+    | some n => exact hp n hq
+  | dec ds =>
+    simp only [XUnit.ok, Bool.and_eq_true] at hu
+    exact hu.2
+  | hex ds =>
+    simp only [XUnit.ok, Bool.and_eq_true] at hu
+    exact hu.2
+
+theorem legal_units (us : List XUnit) (hok : us.all XUnit.ok = true) (a : Bool) :
+    (us.map (XUnit.val a)).all legalD = true := by
+  simp only [List.all_eq_true, List.mem_map] at hok ⊢
+  rintro d ⟨u, hu, rfl⟩
+  exact legal_unit u (hok u hu) a
+
+/-- a byte that no reference contains does not occur in `flat us` unless it is a literal unit -/
+theorem flat_avoid (us : List XUnit) (hok : us.all XUnit.ok = true) (q : Char)
+    (hq : ∀ u ∈ us, u.ok = true → (∀ c, u ≠ .lit c) → ∀ c ∈ u.chars, c ≠ q) (hl : XUnit.lit q ∉ us) :
+    q ∉ flat us := by
+  simp only [List.all_eq_true] at hok
+  simp only [flat, List.mem_flatMap, not_exists, not_and]
+  intro u hu hc
+  cases u with
+  | lit c =>
+    simp only [XUnit.chars, List.mem_singleton] at hc
+    subst hc; exact hl hu
+  | named nm => exact hq _ hu (hok _ hu) (by intro c h; cases h) q hc rfl
+  | dec ds => exact hq _ hu (hok _ hu) (by intro c h; cases h) q hc rfl
+  | hex ds => exact hq _ hu (hok _ hu) (by intro c h; cases h) q hc rfl
+
+theorem flat_no_lt (us : List XUnit) (hok : us.all XUnit.ok = true) : '<' ∉ flat us := by
+  apply flat_avoid us hok '<'
+  · intro u _ huok hr
+    exact ref_chars_avoid u huok hr '<' (by decide) (by decide) (by decide)
+  · intro hmem
+    have := (List.all_eq_true.mp hok) _ hmem
+    revert this; decide
+
+theorem flat_no_quote (us : List XUnit) (hok : us.all XUnit.ok = true) (q : Char) (hq : q = '"' ∨ q = '\'')
+    (hl : XUnit.lit q ∉ us) : q ∉ flat us := by
+  apply flat_avoid us hok q _ hl
+  intro u _ huok hr
+  exact ref_chars_noquote u huok hr q hq
+
+/-- character data according to the grammar, free of `]]>`, passes the tokeniser's check -/
+theorem wfText_wfChars (d : List Char) (h : WfText d) (hc : hasCdEnd d = false) : wfChars d = true := by
+  obtain ⟨us, hok, rfl, _⟩ := h
+  simp only [wfChars, Bool.and_eq_true, Bool.not_eq_true', List.contains_eq_mem, decide_eq_false_iff_not]
+  refine ⟨⟨flat_no_lt us hok, ?_⟩, hc⟩
+  rw [decodeText_flat us hok]
+  exact legal_units us hok false
+
+theorem wfText_ne_nil (d : List Char) (h : WfText d) : d ≠ [] := by
+  obtain ⟨us, _, rfl, hne⟩ := h
+  intro h0
+  exact hne ((Verif.Proofs.Xml.flat_eq_nil us).mp h0)
+
+theorem wfText_append (a b : List Char) (ha : a = [] ∨ WfText a) (hb : WfText b) : WfText (a ++ b) := by
+  rcases ha with rfl | ⟨us, hok, rfl, hne⟩
+  · simpa using hb
+  · obtain ⟨us2, hok2, rfl, _⟩ := hb
+    refine ⟨us ++ us2, ?_, (flat_append us us2).symm, by simp [hne]⟩
+    simp only [List.all_append, Bool.and_eq_true]
+    exact ⟨hok, hok2⟩
+
+/-- an attribute value literal according to the grammar passes the tokeniser's check -/
+theorem wfAttrVal_wfAttr (v : List Char) (h : WfAttrVal v) : wfAttr v = true := by
+  obtain ⟨q, us, hq, hok, hl, rfl⟩ := h
+  simp only [wfAttr, unquote_wrap q hq (flat us), Bool.and_eq_true, Bool.not_eq_true', List.contains_eq_mem,
+    decide_eq_false_iff_not]
+  refine ⟨⟨flat_no_lt us hok, flat_no_quote us hok q hq hl⟩, ?_⟩
+  rw [normAttr_flat us hok]
+  exact legal_units us hok true
+
+
+/-! ## the reader's view of a token stream -/
+
+theorem bytesOf_flushText (acc : List Char) (k : List XTok) : bytesOf (flushText acc k) = acc ++ bytesOf k := by
+  unfold flushText
+  split
+  · next h => simp [List.isEmpty_iff.mp h]
+  · simp [bytesOf_cons, tokBytes]
+
+theorem bytesOf_flushPi (d : List Char) (k : List XTok) : bytesOf (flushPi d k) = d ++ bytesOf k := by
+  unfold flushPi
+  split
+  · next h => simp [List.isEmpty_iff.mp h]
+  · simp [bytesOf_cons, tokBytes]
+
+/-- the reader's view has the same bytes -/
+theorem bytesOf_viewGo (ts : List XTok) : (∀ acc, bytesOf (viewGo (.txt acc) ts) = acc ++ bytesOf ts) ∧
+    (∀ d, bytesOf (viewGo (.pi d) ts) = d ++ bytesOf ts) := by
+  induction ts with
+  | nil =>
+    constructor
+    · intro acc; simp [viewGo, bytesOf_flushText]
+    · intro d; simp [viewGo, bytesOf_flushPi]
+  | cons t r ih =>
+    constructor
+    · intro acc
+      cases t <;>
+        simp only [viewGo, bytesOf_flushText, bytesOf_cons, ih.1, ih.2, tokBytes, List.append_assoc, List.nil_append,
+          List.cons_append]
+    · intro d
+      cases t <;>
+        simp only [viewGo, bytesOf_flushPi, bytesOf_cons, ih.1, ih.2, tokBytes, List.append_assoc, List.nil_append,
+          List.cons_append]
+
+theorem bytesOf_view (ts : List XTok) : bytesOf (view ts) = bytesOf ts := by
+  simpa [view] using (bytesOf_viewGo ts).1 []
+
+/-! ### the two-byte delimiter over concatenations -/
+
+theorem has2_append_safe (a b : Char) (x y : List Char) (hx : has2 a b x = false) (hy : has2 a b y = false)
+    (hh : ∀ c ∈ y.head?, c ≠ b) : has2 a b (x ++ y) = false := by
+  induction x with
+  | nil => simpa using hy
+  | cons c r ih =>
+    simp only [has2, Bool.or_eq_false_iff] at hx
+    have ih' := ih hx.2
+    simp only [List.cons_append, has2, Bool.or_eq_false_iff]
+    refine ⟨?_, ih'⟩
+    cases r with
+    | nil =>
+      cases y with
+      | nil => rfl
+      | cons e y' =>
+        have : e ≠ b := hh e (by simp)
+        simp [starts2, this]
+    | cons d r' =>
+      have := hx.1
+      simpa [starts2] using this
+
+theorem has2_none (a b : Char) (x : List Char) (h : ∀ c ∈ x, c ≠ a) : has2 a b x = false := by
+  induction x with
+  | nil => rfl
+  | cons c r ih =>
+    simp only [has2, Bool.or_eq_false_iff]
+    refine ⟨?_, ih (fun c hc => h c (by simp [hc]))⟩
+    have : c ≠ a := h c (by simp)
+    cases r with
+    | nil => rfl
+    | cons d r' => simp [starts2, this]
+
+theorem piDataOk_append (d e : List Char) (hd : piDataOk d = true) (he : piDataOk e = true) (hne : e ≠ []) :
+    piDataOk (d ++ e) = true := by
+  simp only [piDataOk, Bool.and_eq_true, Bool.not_eq_true'] at hd he ⊢
+  cases e with
+  | nil => exact absurd rfl hne
+  | cons c e' =>
+    refine ⟨?_, has2_append_safe _ _ d (c :: e') hd.2 he.2 ?_⟩
+    · cases d with
+      | nil => exact he.1
+      | cons x d' => exact hd.1
+    · intro x hx
+      simp at hx; subst hx
+      intro hc; subst hc
+      have := he.1
+      simp at this
+      revert this; decide
+
+/-- the bytes of a pseudo-attribute as PI data -/
+theorem piDataOk_attr (n v : List Char) (hn : isName n = true) (hv : has2 '?' '>' v = false) :
+    piDataOk (tokBytes (.attr n v)) = true := by
+  simp only [tokBytes, piDataOk, Bool.and_eq_true, Bool.not_eq_true']
+  refine ⟨rfl, ?_⟩
+  have hnm : has2 '?' '>' n = false := by
+    apply has2_none
+    intro c hc h; subst h
+    have := isName_all n hn _ hc
+    revert this; decide
+  have h1 : has2 '?' '>' ('=' :: v) = false := by
+    simp only [has2, Bool.or_eq_false_iff]
+    refine ⟨?_, hv⟩
+    cases v <;> simp [starts2]
+  have h2 := has2_append_safe '?' '>' n ('=' :: v) hnm h1 (by intro c hc; simp at hc; subst hc; decide)
+  simp only [has2, Bool.or_eq_false_iff]
+  refine ⟨?_, h2⟩
+  cases hh : n ++ '=' :: v <;> simp [starts2]
+
+
+/-! ### the reader's view of a lexer-shaped stream with well-formed tokens follows the grammar -/
+
+theorem canon_flushText (acc : List Char) (k : List XTok) (ha : acc = [] ∨ WfText acc) (hc : hasCdEnd acc = false)
+    (ht : nextIsText k = false) (hk : canonOk false k = true) : canonOk false (flushText acc k) = true := by
+  unfold flushText
+  split
+  · exact hk
+  · next hne =>
+    rcases ha with rfl | ha
+    · simp at hne
+    · simp only [canonOk, Bool.and_eq_true, Bool.not_eq_true']
+      exact ⟨⟨⟨by simpa using hne, wfText_wfChars acc ha hc⟩, ht⟩, hk⟩
+
+theorem viewGo_canon : ∀ (ts : List XTok), (∀ x ∈ ts, WfOutP x) → (∀ d, XTok.comment d ∉ ts) →
+    (∀ acc, (acc = [] ∨ WfText acc) → lexOk .content ts = true → (∀ run ∈ rawRuns acc ts, hasCdEnd run = false) →
+        canonOk false (viewGo (.txt acc) ts) = true) ∧
+    (lexOk .tag ts = true → (∀ run ∈ rawRuns [] ts, hasCdEnd run = false) →
+        canonOk true (viewGo (.txt []) ts) = true) ∧
+    (∀ n d, isName n = true → piDataOk d = true → lexOk .pi ts = true →
+        (∀ run ∈ rawRuns [] ts, hasCdEnd run = false) →
+        canonOk false (.startTagPI n :: viewGo (.pi d) ts) = true) := by
+  intro ts
+  induction ts with
+  | nil =>
+    intro _ _
+    refine ⟨?_, ?_, ?_⟩
+    · intro acc ha _ hr
+      simp only [viewGo]
+      exact canon_flushText acc [] ha (hr acc (by simp [rawRuns])) rfl rfl
+    · intro hl; simp [lexOk] at hl
+    · intro n d _ _ hl; simp [lexOk] at hl
+  | cons t r ih =>
+    intro hw hnc
+    have hwr : ∀ x ∈ r, WfOutP x := fun x hx => hw x (by simp [hx])
+    have hncr : ∀ d, XTok.comment d ∉ r := fun d hd => hnc d (by simp [hd])
+    obtain ⟨ih1, ih2, ih3⟩ := ih hwr hncr
+    refine ⟨?_, ?_, ?_⟩
+    · intro acc ha hl hr
+      cases t with
+      | text d =>
+        have hd : WfText d := hw (.text d) (by simp)
+        simp only [lexOk, Bool.and_eq_true] at hl
+        simp only [viewGo]
+        exact ih1 (acc ++ d) (Or.inr (wfText_append acc d ha hd)) hl.2 (by simpa [rawRuns] using hr)
+      | comment d => exact absurd (by simp) (hnc d)
+      | cdata d t' =>
+        simp only [lexOk, Bool.and_eq_true] at hl
+        simp only [rawRuns, List.mem_cons] at hr
+        simp only [viewGo]
+        apply canon_flushText acc _ ha (hr acc (Or.inl rfl)) rfl
+        simp only [canonOk, hl.1, Bool.true_and]
+        exact ih1 [] (Or.inl rfl) hl.2 (fun run h => hr run (Or.inr h))
+      | doctype d =>
+        simp only [lexOk, Bool.and_eq_true] at hl
+        simp only [rawRuns, List.mem_cons] at hr
+        simp only [viewGo]
+        apply canon_flushText acc _ ha (hr acc (Or.inl rfl)) rfl
+        simp only [canonOk, hl.1, Bool.true_and]
+        exact ih1 [] (Or.inl rfl) hl.2 (fun run h => hr run (Or.inr h))
+      | endTag d n =>
+        simp only [lexOk, Bool.and_eq_true] at hl
+        simp only [rawRuns, List.mem_cons] at hr
+        simp only [viewGo]
+        apply canon_flushText acc _ ha (hr acc (Or.inl rfl)) rfl
+        simp only [canonOk, hl.1, Bool.true_and]
+        exact ih1 [] (Or.inl rfl) hl.2 (fun run h => hr run (Or.inr h))
+      | startTag n =>
+        simp only [lexOk, Bool.and_eq_true] at hl
+        simp only [rawRuns, List.mem_cons] at hr
+        simp only [viewGo]
+        apply canon_flushText acc _ ha (hr acc (Or.inl rfl)) rfl
+        simp only [canonOk, hl.1, Bool.true_and]
+        exact ih2 hl.2 (fun run h => hr run (Or.inr h))
+      | startTagPI n =>
+        simp only [lexOk, Bool.and_eq_true] at hl
+        simp only [rawRuns, List.mem_cons] at hr
+        simp only [viewGo]
+        apply canon_flushText acc _ ha (hr acc (Or.inl rfl)) rfl
+        exact ih3 n [] hl.1 (by decide) hl.2 (fun run h => hr run (Or.inr h))
+      | attr n v => simp [lexOk] at hl
+      | attrBare d n => simp [lexOk] at hl
+      | startTagClose => simp [lexOk] at hl
+      | startTagCloseVoid => simp [lexOk] at hl
+      | startTagClosePI => simp [lexOk] at hl
+    · intro hl hr
+      cases t with
+      | attr n v =>
+        have hv : WfAttrVal v := hw (.attr n v) (by simp)
+        simp only [lexOk, Bool.and_eq_true] at hl
+        simp only [rawRuns, List.mem_cons] at hr
+        simp only [viewGo, flushText, List.isEmpty_nil, if_true, canonOk, hl.1, wfAttrVal_wfAttr v hv, Bool.true_and]
+        exact ih2 hl.2 (fun run h => hr run (Or.inr h))
+      | startTagClose =>
+        simp only [lexOk] at hl
+        simp only [rawRuns, List.mem_cons] at hr
+        simp only [viewGo, flushText, List.isEmpty_nil, if_true, canonOk]
+        exact ih1 [] (Or.inl rfl) hl (fun run h => hr run (Or.inr h))
+      | startTagCloseVoid =>
+        simp only [lexOk] at hl
+        simp only [rawRuns, List.mem_cons] at hr
+        simp only [viewGo, flushText, List.isEmpty_nil, if_true, canonOk]
+        exact ih1 [] (Or.inl rfl) hl (fun run h => hr run (Or.inr h))
+      | _ => simp [lexOk] at hl
+    · intro n d hn hd hl hr
+      cases t with
+      | startTagClosePI =>
+        simp only [lexOk] at hl
+        simp only [rawRuns, List.mem_cons] at hr
+        have hrest := ih1 [] (Or.inl rfl) hl (fun run h => hr run (Or.inr h))
+        simp only [viewGo, flushPi]
+        split
+        · simp only [canonOk, hn, hrest, Bool.true_and]
+        · next hne =>
+          simp only [canonOk, hn, hrest, hd, beq_self_eq_true, Bool.true_and, Bool.and_true, Bool.not_eq_true']
+          simpa using hne
+      | attr n' v =>
+        simp only [lexOk, Bool.and_eq_true, Bool.not_eq_true'] at hl
+        simp only [rawRuns, List.mem_cons] at hr
+        simp only [viewGo]
+        exact ih3 n _ hn (piDataOk_append d _ hd (piDataOk_attr n' v hl.1.1 hl.1.2) (by simp [tokBytes])) hl.2
+          (fun run h => hr run (Or.inr h))
+      | attrBare d' x =>
+        simp only [lexOk, Bool.and_eq_true, Bool.not_eq_true', List.isEmpty_eq_false_iff] at hl
+        simp only [rawRuns, List.mem_cons] at hr
+        simp only [viewGo, tokBytes]
+        exact ih3 n _ hn (piDataOk_append d d' hd hl.1.1 hl.1.2) hl.2 (fun run h => hr run (Or.inr h))
+      | _ => simp [lexOk] at hl
+
+/-- **view_canonOk**: the reader's view of a stream that has the lexer's shape, well-formed tokens, no comments and
+no `]]>` in a run of character data follows the grammar `canonOk` -/
+theorem view_canonOk (ts : List XTok) (hw : ∀ x ∈ ts, WfOutP x) (hnc : ∀ d, XTok.comment d ∉ ts)
+    (hl : lexOk .content ts = true) (hr : rawCdEnd ts = false) : canonOk false (view ts) = true := by
+  apply (viewGo_canon ts hw hnc).1 [] (Or.inl rfl) hl
+  intro run hrun
+  simp only [rawCdEnd, List.any_eq_false] at hr
+  simpa using hr run hrun
+
 end Verif.Proofs.C09XmlLex
